@@ -182,7 +182,7 @@ def main():
                      "kind_free_text": "explicit TLA+ specification (spec/*.tla) checked with TLC; bound to the implementation by replaying TLC-generated behaviours into the real code and validating recorded traces against the specification (harness/*.py)"}],
         "checks": checks,
         "not_applicable": na,
-        "notes": "Exit codes of ./check: 0 held, 1 VIOLATION, 2 machinery failure (never reported as pass or violation). VERIF_SEED selects sampled factors; VERIF_REPO (default /repo) selects the tree under test.",
+        "notes": "Exit codes of ./check: 0 held, 1 VIOLATION, 2 machinery failure (never reported as pass or violation); an exception that escapes from inside the library out of a driver call that expected a value is reported as a VIOLATION (library-raises/<class>/<call site>), not as a machinery failure. VERIF_SEED selects sampled factors; VERIF_REPO (default /repo) selects the tree under test.",
     }
     json.dump(m, open(os.path.join(V, "MANIFEST.json"), "w"), indent=1)
     print(f"{len(checks)} checks, {len(na)} not claimed")
